@@ -103,6 +103,24 @@ class Parser(ABC):
             elif line_parsed.get("directive") is not None:
                 raise ParserDirectiveException(line_number=line_number, line=line)
 
+    def _to_int(self, literal: str, line_number: int, line: str, base: int = 0) -> int:
+        """Converts a number literal from the program text into an int.
+
+        Args:
+            literal (str): The literal to convert (e.g. '42', '-0x2A', '0b101010').
+            line_number (int): The line number in which the literal occurs.
+            line (str): The line in which the literal occurs.
+            base (int, optional): The base to use. Defaults to 0 (determined by the prefix of the literal).
+
+        Raises:
+            ParserSyntaxException: An error gets raised if Python cannot convert the literal
+            (e.g. decimal numbers with leading zeros or numbers that are too long to be converted).
+        """
+        try:
+            return int(literal, base=base)
+        except ValueError:
+            raise ParserSyntaxException(line_number=line_number, line=line)
+
     def _add_label_mapping(self, label: str, value: int, line_number: int, line: str):
         """Add label (variable) value mapping to self.labels. Raise an error if the label, ... already exists.
 
